@@ -9,26 +9,16 @@ grants have no subordinate list.  Fresh grant ids (uuid1) are inputs of the ops.
 -/
 import IdpyVerif.Base
 import IdpyVerif.Model.LV
+import IdpyVerif.Model.Split
 namespace Idpy.SessionDB
 
 @[irreducible] def semi : Nat := 59
 theorem semi_eq : semi = 59 := by unfold semi; rfl
 
 /-- `DIVIDER.join(path)` -/
-def joinKey : List Str → Str
-  | [] => []
-  | [a] => a
-  | a :: b :: rest => a ++ semi :: semi :: joinKey (b :: rest)
-
-/-- `key.split(";;")`: leftmost non-overlapping matches. `cur` is the current piece, reversed. -/
-def splitAux : Str → Str → List Str
-  | [], cur => [cur.reverse]
-  | [c], cur => [(c :: cur).reverse]
-  | c1 :: c2 :: rest, cur =>
-    if c1 = semi ∧ c2 = semi then cur.reverse :: splitAux rest []
-    else splitAux (c2 :: rest) (c1 :: cur)
-
-def splitKey (k : Str) : List Str := splitAux k []
+def joinKey (p : List Str) : Str := Split.join2 semi p
+/-- `key.split(DIVIDER)` -/
+def splitKey (k : Str) : List Str := Split.split2 semi k
 
 /-- plaintext of a session id: `lv_pack(rnd, DIVIDER.join(path))` -/
 def sidPlain (rnd : Str) (path : List Str) : Str := LV.pack [rnd, joinKey path]
